@@ -92,6 +92,8 @@ def run(ctx):
                 xp, pp = ktloops.pt_sweep(K, b, h)
                 if xp is not None and not pp and fx.same_key(xp, x):
                     pt = i
+            if pt is None:
+                pt = ktloops.pt_search(K, fx, x)
             ck.ob("C01-R6", fn, "when-input_pressed-loses-x:complete-active-mapping-sweep-for-x", am is not None, site=e.ev.span,
                   detail=None if am is not None else "no loop over ALL active mappings that removes those with fails_when_released(from, x) on the path that removes x from input_pressed_keys")
             ck.ob("C01-R2", fn, "when-input_pressed-loses-x:complete-pass_through-sweep-for-x", pt is not None, site=e.ev.span,
